@@ -531,6 +531,8 @@ impl Reader {
     mr_state: &MessageReceiverState,
   ) {
     // trace!("handle_data_msg entry");
+    #[cfg(rustdds_verif)]
+    crate::verif::hooks::handler_reached();
     let receive_timestamp = Timestamp::now();
 
     // parse write_options out of the message
@@ -576,6 +578,8 @@ impl Reader {
   ) {
     let writer_guid = GUID::new_with_prefix_and_id(mr_state.source_guid_prefix, datafrag.writer_id);
     let seq_num = datafrag.writer_sn;
+    #[cfg(rustdds_verif)]
+    crate::verif::hooks::handler_reached();
     let receive_timestamp = Timestamp::now();
     //trace!("DATAFRAG received topic={:?}", self.topic_name);
 
@@ -867,6 +871,8 @@ impl Reader {
   ) -> bool {
     let writer_guid =
       GUID::new_with_prefix_and_id(mr_state.source_guid_prefix, heartbeat.writer_id);
+    #[cfg(rustdds_verif)]
+    crate::verif::hooks::handler_reached();
 
     if self.reliability == policy::Reliability::BestEffort || self.like_stateless {
       debug!(
@@ -1060,6 +1066,8 @@ impl Reader {
 
   pub fn handle_gap_msg(&mut self, gap: &Gap, mr_state: &MessageReceiverState) {
     // ATM all things related to groups is ignored. TODO?
+    #[cfg(rustdds_verif)]
+    crate::verif::hooks::handler_reached();
 
     let writer_guid = GUID::new_with_prefix_and_id(mr_state.source_guid_prefix, gap.writer_id);
 
@@ -1114,6 +1122,8 @@ impl Reader {
       //      inclusion is determined by the bitmap, as with the other sequence
       //      numbers
       for seq_num in gap.gap_list.iter() {
+        #[cfg(rustdds_verif)]
+        crate::verif::hooks::tick();
         writer_proxy.set_irrelevant_change(seq_num);
       }
       all_ackable_before = writer_proxy.all_ackable_before();
